@@ -33,6 +33,7 @@ type State struct {
 	ctr      *int
 	lockLog  []string
 	spawned  []string
+	last     map[string]Val // address -> value most recently stored there (valid until the class is written elsewhere)
 }
 
 func (st *State) clone() *State {
@@ -59,6 +60,10 @@ func (st *State) clone() *State {
 	n.freshRef = map[string]bool{}
 	for k, v := range st.freshRef {
 		n.freshRef[k] = v
+	}
+	n.last = map[string]Val{}
+	for k, v := range st.last {
+		n.last[k] = v
 	}
 	n.trace = append([]string{}, st.trace...)
 	n.lockLog = append([]string{}, st.lockLog...)
@@ -136,6 +141,16 @@ func (st *State) hget(class string) string {
 func (st *State) hset(class, term string) {
 	srt := st.x.w.classes[class]
 	st.heap[class] = st.define("H_"+shortClass(class), srt, term)
+	st.forget(class)
+}
+
+// forget drops remembered stores into a class (another write may alias them).
+func (st *State) forget(class string) {
+	for k := range st.last {
+		if strings.HasPrefix(k, class+"@") {
+			delete(st.last, k)
+		}
+	}
 }
 
 func shortClass(c string) string {
@@ -157,11 +172,13 @@ func (st *State) havocAll() {
 		}
 	}
 	st.heap = nh
+	st.last = map[string]Val{}
 }
 
 func (st *State) havocClass(class string) {
 	srt := st.x.w.classes[class]
 	st.heap[class] = st.fresh("H_"+shortClass(class), srt)
+	st.forget(class)
 }
 
 // ---- type invariants ----
@@ -477,7 +494,15 @@ func (st *State) loadFrom(h map[string]string, a *Addr, t types.Type) Val {
 	panic(rejectErr("load from address kind " + a.Kind))
 }
 
-func (st *State) load(a *Addr, t types.Type) Val { return st.loadFrom(st.heap, a, t) }
+func (st *State) load(a *Addr, t types.Type) Val {
+	if a.Kind == "fld" || a.Kind == "mem" {
+		if v, ok := st.last[a.Class+"@"+a.Ref]; ok {
+			v.T = t
+			return v
+		}
+	}
+	return st.loadFrom(st.heap, a, t)
+}
 
 func (st *State) valTerm(v Val) string {
 	if v.S != "" {
@@ -505,6 +530,9 @@ func (st *State) storeAt(a *Addr, v Val, t types.Type) {
 	case "fld", "mem":
 		st.x.noteWrite(st, a)
 		st.hset(a.Class, "(store "+st.hget(a.Class)+" "+a.Ref+" "+st.valTerm(v)+")")
+		if v.S != "" {
+			st.last[a.Class+"@"+a.Ref] = v
+		}
 	case "elem":
 		h := st.hget(a.Class)
 		st.hset(a.Class, "(store "+h+" "+a.Ref+" (store (select "+h+" "+a.Ref+") "+a.Idx+" "+st.valTerm(v)+"))")
